@@ -11,6 +11,7 @@
 #include <openssl/ssl.h>
 #include <openssl/err.h>
 #include <arpa/inet.h>
+#include <netdb.h>
 #include <atomic>
 #include <thread>
 using namespace iora::network;
@@ -77,11 +78,22 @@ static int demo_S1() {
   cbs.onData = [](SessionId, iora::core::BufferView, std::chrono::steady_clock::time_point) {};
   eng.setCallbacks(cbs);
   auto st = eng.start(); if (st.isErr()) { printf("engine start failed\n"); return 2; }
-  const char *host = "vm";                                                   // resolves to 127.0.0.1 (/etc/hosts); the certificate does not name it
+  // a host NAME that resolves to 127.0.0.1 but is not named by the certificate (SAN: DNS:localhost, IP:127.0.0.1)
+  char hn[256] = {0}; gethostname(hn, sizeof hn - 1);
+  std::string host;
+  for (std::string cand : {std::string("vm"), std::string("runsc"), std::string(hn), std::string("localhost.localdomain"), std::string("ip4-localhost")}) {
+    if (cand.empty() || cand == "localhost") continue;
+    addrinfo hints{}, *res = nullptr; hints.ai_family = AF_INET; hints.ai_socktype = SOCK_STREAM;
+    if (getaddrinfo(cand.c_str(), nullptr, &hints, &res) == 0 && res) {
+      bool lo = ((sockaddr_in *)res->ai_addr)->sin_addr.s_addr == htonl(INADDR_LOOPBACK); freeaddrinfo(res);
+      if (lo) { host = cand; break; }
+    }
+  }
+  if (host.empty()) { printf("S1: no alias of 127.0.0.1 other than localhost is resolvable on this machine\n"); eng.stop(); ::shutdown(ls, SHUT_RDWR); ::close(ls); server.join(); return 2; }
   auto cr = eng.connect(host, port, TlsMode::Client);
   for (int i = 0; i < 300 && !connected && !closed; i++) std::this_thread::sleep_for(std::chrono::milliseconds(10));
   printf("S1: TLS client (verifyPeer=true, CA configured) connecting to host name \"%s\": server certificate is for localhost/127.0.0.1 only -> %s (server side handshake: %d)\n",
-         host, connected ? "onConnect FIRED (announced as connected)" : "refused", (int)srvHandshake);
+         host.c_str(), connected ? "onConnect FIRED (announced as connected)" : "refused", (int)srvHandshake);
   int rc = connected ? 1 : 0;
   eng.stop(); ::shutdown(ls, SHUT_RDWR); ::close(ls); server.join();
   return rc;
